@@ -117,6 +117,7 @@ class MemoryAccess:
                                     priority, pgn, sa, timestamp, data
                                 )
                                 self.server.set_busy(False)
+                                self.server.reset_query()
                                 self.state = DMState.IDLE
                                 self.server.error = 0x0
 
